@@ -488,8 +488,8 @@ def replay(run, obj, quick=True):
 def search(run, rng, quick):
     t0 = time.time()
     budget = 45.0 if quick else 520.0
-    plan = [("random-tree", _case_random_tree, 130 if quick else 2000),
-            ("builders", _case_builders, 45 if quick else 600),
+    plan = [("random-tree", _case_random_tree, 100 if quick else 2000),
+            ("builders", _case_builders, 35 if quick else 600),
             ("rejections", _case_rejections, 1)]
     queue = []
     for name, fn, n in plan:
